@@ -291,7 +291,7 @@ def checkIndex (cfg : Cfg) (t chunk : Nat) : Chk :=
       | some b => if chunkInRange b chunk then .ok cfg else .err cfg
       | none =>
         let tb := TableId.index_bits t
-        if tb < cc.indexBits then .err cfg             -- "Unexpected log index id"
+        if tb < cc.indexBits then .ok cfg              -- write into a dropped index: skipped (fix f3abed6)
         else if tb > maxIndexBits then .err cfg        -- PATCH "Bad log index id"
         else
           let cfg' := cfg.setCol c
